@@ -21,6 +21,7 @@ def scenarios(rep, tier, seed):
     for Wm in mats3:
         for kind in ("unsup", "knn"):
             scns.append(K.matrix_scenario(Wm, kind, rng, max_k=2, min_k=rng.randrange(1, 3), queries=qs3, nval=(2 if kind == "knn" else 0)))
+            scns[-1]["prepredict"] = len(scns) % 4 == 0
     mats4 = K.tlc_matrices(rep, 4, 2)
     qs4 = [list(q) for q in itertools.product(range(3), repeat=4)]
     for Wm in (mats4 if thorough else rng.sample(mats4, 120)):
@@ -39,6 +40,7 @@ def scenarios(rep, tier, seed):
             rng.shuffle(scn["Q"])
         if not K.materialise(scn):
             continue
+        scn["prepredict"] = i % 3 == 1
         scns.append(scn)
     # "all metrics": non-symmetric identifiers too (training evaluates d(sample, neighbour), prediction d(query, sample))
     for i in range(200 if thorough else 40):
@@ -76,7 +78,7 @@ def run(tier, seed):
     rep.sample({"scenario": {k: (v if k not in ("Z", "D") else "...") for k, v in s0.items()}, "k": r0["trace"]["k"], "fin": r0["trace"]["fin"], "queries": r0["trace"]["q"][:3]})
     K.judge(rep, items, "c14", PIDS, detail_fn=detail)
     rep.cov["predictions_judged"] = sum(len(r["trace"]["q"]) for _, r in items)
-    rep.cov["rule"] = "every query vector on every small rank matrix (n=3 all, n=4 sampled/all) through both models; float queries incl. training copies at arbitrary batch positions; query density admitted in 4 forms (divisor k or k+1, range with/without EPSILON) evaluated from KnnTerms.tla templates"
+    rep.cov["rule"] = "every query vector on every small rank matrix (n=3 all, n=4 sampled/all) through both models; float queries incl. training copies at arbitrary batch positions; a third of the models have predicted once before propagate_labels rewrote their labels; query density admitted in 4 forms (divisor k or k+1, range with/without EPSILON) evaluated from KnnTerms.tla templates"
     rep.assumptions = ["TLC", "query density is evaluated from the spec-held term by lib/terms.py (float64); queries whose density is within 1e-9 relative of a training cost are skipped (counted)", "ties at the k-th distance admit every valid neighbour set"]
     return rep.finish()
 
